@@ -137,7 +137,7 @@ var cfgC06 = reg(PropCfg{
 func streamProfile() *Profile {
 	return &Profile{Weights: map[string]int{StrCreate: 12, StrClaim: 26, StrTopUp: 10, StrUpdate: 8, StrCancel: 6, BankSend: 5, WrkReg: 1, EntRaise: 1},
 		MinBlocks: 6, MaxBlocks: 30, MaxTxs: 4, MaxOps: 2, PUpper: 6, PActor: 8, PNamed: 2, PFault: 2, PExec: 6, PGovParams: 8, PBadRef: 4,
-		BigAmounts: true, ValidParams: true, LongTime: true, GovKinds: []string{ParamsStr}, PEscrow: 8, PReimport: 4}
+		BigAmounts: true, ValidParams: true, LongTime: true, GovKinds: []string{ParamsStr}, PEscrow: 8, PReimport: 4, PGovSendSwitch: 25}
 }
 
 var cfgC10 = reg(PropCfg{
@@ -183,7 +183,7 @@ func TestC17(t *testing.T) { RunProperty(t, cfgC17) }
 var cfgC14 = reg(PropCfg{
 	ID: "C14",
 	Profile: &Profile{PReimport: 3, Weights: mixedWeights(), MinBlocks: 8, MaxBlocks: 40, MaxTxs: 4, MaxOps: 4, PUpper: 6, PActor: 8, PNamed: 2, PFault: 4, PExec: 8,
-		PGovParams: 14, PGovRaise: 20, PQuorumConflict: 10, GovKinds: []string{ParamsEnt, ParamsEnt, ParamsWrk, ParamsBcn, ParamsStr}, PBadRef: 5, Vesting: true, TinyLimits: true, BigAmounts: true, EntDenomChange: true, LongTime: true, GasSweep: true, MultiPct: 35, PGranter: 10, PFeePayer: 6, PExecTail: 8},
+		PGovParams: 14, PGovSendSwitch: 12, PGovRaise: 20, PQuorumConflict: 10, GovKinds: []string{ParamsEnt, ParamsEnt, ParamsWrk, ParamsBcn, ParamsStr}, PBadRef: 5, Vesting: true, TinyLimits: true, BigAmounts: true, EntDenomChange: true, LongTime: true, GasSweep: true, MultiPct: 35, PGranter: 10, PFeePayer: 6, PExecTail: 8},
 	Rule: "history with a failed multi-message tx whose first message was viable alone, or enterprise parameters changed while an order was queued",
 	NonTrivial: func(w *World) bool {
 		return w.Classes["c14.failed-multi-message-tx-first-op-viable"] > 0 || w.Classes["c14.ent-params-changed-with-order-queued"] > 0
